@@ -23,13 +23,21 @@
 // returns nil for a peer that is no longer connected. The "flap" sub-check enumerates
 // these schedules for one peer.
 //
+// Events inside Start()/Stop(). Connection events of a real network are not synchronised
+// with Start/Stop. The fake network's Notify/StopNotify - called by the service from
+// inside Start/Stop - is a schedule point owned by the harness: scripted events land just
+// before or just after the (un)registration takes effect, optionally after every
+// goroutine the call has spawned so far has run (Op.During, Op.Yield; "startstop" grid).
+//
 // Oracles (from the property statement):
 //   - safety: no host.Connect call for a peer starts after Stop() has returned, or
 //     after RemovePeer(p) has returned (until p is added again);
 //   - progress: while the service runs, a peering peer that is disconnected (and whose
 //     notifications have all been delivered, no dial in flight) is dialled again
 //     within 10 minutes of becoming so / of the end of the previous dial, and
-//     never with delay 0.
+//     never with delay 0: no attempt of a handler starts at the very instant its previous
+//     attempt returned (dials have a virtual duration, so a back-off that is shortened
+//     by the time the failed dial took shows up here), no 4 attempts at one instant.
 package c46
 
 import (
@@ -78,6 +86,18 @@ type Outcome struct {
 type PeerSpec struct {
 	Dials []Outcome `json:"dials"` // outcome of the k-th dial to this peer
 	Tail  string    `json:"tail"`  // outcome of all further dials: fail | ok
+	// TailDelayMs: virtual duration of every further dial (e.g. a black-holed address: the
+	// dial only fails at the dial timeout, which is longer than the first back-offs)
+	TailDelayMs int64 `json:"tail_delay_ms,omitempty"`
+}
+
+// Ev is a connection event that lands while Start()/Stop() is executing, at the moment the
+// service registers (Start) / unregisters (Stop) its notifee with the network.
+type Ev struct {
+	Disc  bool `json:"disc,omitempty"` // a connection closes (else: one opens)
+	Peer  int  `json:"peer,omitempty"`
+	After bool `json:"after,omitempty"` // just after the (un)registration took effect (else: just before)
+	Hold  bool `json:"hold,omitempty"`  // hold the notification (if anybody listens)
 }
 
 type Op struct {
@@ -87,6 +107,11 @@ type Op struct {
 	Ms   int64  `json:"ms,omitempty"`   // advance
 	Idx  int    `json:"idx,omitempty"`  // release: index into the list of held notifications (mod length)
 	N    int    `json:"n,omitempty"`    // soak: number of (10 min + 1 s) steps
+	// start/stop only: events landing inside the call, at the Notify/StopNotify point. Yield:
+	// every goroutine the service has spawned so far runs to completion first (the Go
+	// scheduler may run a `go` statement's goroutine at once on another thread).
+	During []Ev `json:"during,omitempty"`
+	Yield  bool `json:"yield,omitempty"`
 }
 
 type Case struct {
@@ -124,6 +149,7 @@ type engine struct {
 	dialNo   []int
 	held     []*heldNotif
 	drain    bool
+	during   *Op // start/stop op being executed: events to inject at the Notify/StopNotify point
 
 	// model of what the harness asked for
 	state   string // init | running | stopped
@@ -139,6 +165,8 @@ type engine struct {
 	lateDisc      []bool // a Disconnected notification fired before Stop was delivered after Stop
 	sameInstant   []int
 	lastDialAt    []time.Duration
+	lastEndAt     []time.Duration // end of the last finished dial of the peer (-1: none)
+	lastEndGen    []int           // handler generation that made that dial
 	dials         []dialRec
 	consecFails   []int
 
@@ -190,6 +218,16 @@ func (e *engine) updateAll() {
 	for p := range e.ids {
 		e.update(p)
 	}
+}
+
+// lastStartAt: start of the most recent recorded dial of p (for messages)
+func (e *engine) lastStartAt(p int) time.Duration {
+	for i := len(e.dials) - 1; i >= 0; i-- {
+		if e.dials[i].p == p {
+			return e.dials[i].at
+		}
+	}
+	return -1
 }
 
 func (e *engine) base(p int) time.Duration {
@@ -284,23 +322,74 @@ type fakeNet engine
 
 func (n *fakeNet) e() *engine { return (*engine)(n) }
 
-func (n *fakeNet) Notify(f network.Notifiee) {
-	e := n.e()
+// event: a connection to p opens or closes (at most 2 per peer). Caller holds e.mu.
+func (e *engine) event(disc bool, p int, hold bool) {
+	if disc {
+		if e.conns[p] > 0 {
+			e.conns[p]--
+			e.fire(true, p, hold)
+			e.update(p)
+		}
+	} else if e.conns[p] < 2 {
+		e.conns[p]++
+		e.fire(false, p, hold)
+		e.update(p)
+	}
+}
+
+// hookPoint runs on the goroutine that called Start()/Stop(), inside that call, where the
+// service (un)registers its notifee. Connection events of the real network are not
+// synchronised with Start/Stop, so they may land right here: just before or just after
+// the (un)registration takes effect, and - since a `go` statement's goroutine may run at
+// once - after everything the service has spawned so far has run (Yield). Before every
+// script operation all goroutines of the bubble are quiescent, so the only runnable ones
+// are those spawned by this very call; none of them needs a lock the caller holds.
+func (e *engine) hookPoint(class string, apply func()) {
+	e.mu.Lock()
+	op := e.during
+	e.during = nil
+	e.mu.Unlock()
+	if op != nil && op.Yield {
+		synctest.Wait()
+	}
 	e.mu.Lock()
 	defer e.mu.Unlock()
-	e.notifees = append(e.notifees, f)
+	if op != nil {
+		for _, ev := range op.During {
+			if !ev.After {
+				e.event(ev.Disc, ev.Peer, ev.Hold)
+				e.classes[class] = true
+			}
+		}
+	}
+	apply()
+	if op != nil {
+		for _, ev := range op.During {
+			if ev.After {
+				e.event(ev.Disc, ev.Peer, ev.Hold)
+				e.classes[class] = true
+			}
+		}
+	}
+}
+
+func (n *fakeNet) Notify(f network.Notifiee) {
+	e := n.e()
+	e.hookPoint("race:event-inside-start", func() {
+		e.notifees = append(e.notifees, f)
+	})
 }
 
 func (n *fakeNet) StopNotify(f network.Notifiee) {
 	e := n.e()
-	e.mu.Lock()
-	defer e.mu.Unlock()
-	for i, g := range e.notifees {
-		if g == f {
-			e.notifees = append(e.notifees[:i:i], e.notifees[i+1:]...)
-			return
+	e.hookPoint("race:event-inside-stop", func() {
+		for i, g := range e.notifees {
+			if g == f {
+				e.notifees = append(e.notifees[:i:i], e.notifees[i+1:]...)
+				return
+			}
 		}
-	}
+	})
 }
 
 func (n *fakeNet) Connectedness(id peer.ID) network.Connectedness {
@@ -373,6 +462,13 @@ func (h *fakeHost) Connect(ctx context.Context, pi peer.AddrInfo) error {
 		e.sameInstant[p] = 0
 	}
 	e.lastDialAt[p] = now
+	if e.inflight[p] == 0 && e.present[p] && e.lastEndAt[p] == now && e.lastEndGen[p] == e.gen[p] {
+		// the handler's previous attempt returned at this very instant: the attempt that
+		// starts now was scheduled with delay <= 0. (Every timer of the service is armed
+		// with a back-off > 0 when the previous attempt ends or the peer drops.)
+		e.failUnknown("backoff: reconnect attempt for peer %d starts at the very instant its previous attempt (%s, started t=%v) returned: scheduled with delay 0, not in (0, 10 min]",
+			p, e.lastKind[p], e.lastStartAt(p))
+	}
 	if e.sameInstant[p] >= 3 {
 		// break the zero-delay loop (virtual time cannot advance while it spins): report,
 		// then pretend the peer is connected so that the service clears its timer
@@ -392,11 +488,15 @@ func (h *fakeHost) Connect(ctx context.Context, pi peer.AddrInfo) error {
 	if k < len(e.c.Peers[p].Dials) {
 		out = e.c.Peers[p].Dials[k]
 	} else {
-		out = Outcome{Kind: e.c.Peers[p].Tail}
+		out = Outcome{Kind: e.c.Peers[p].Tail, DelayMs: e.c.Peers[p].TailDelayMs}
 	}
+	dialGen := e.gen[p]
 	e.dials = append(e.dials, dialRec{p, now, out.Kind})
 	if out.DelayMs > 0 {
 		e.classes["slow-dial"] = true
+		if out.Kind == "fail" && out.DelayMs >= 30000 {
+			e.classes["slow-failing-dial(>=30s)"] = true
+		}
 	}
 	e.inflight[p]++
 	e.update(p)
@@ -483,6 +583,7 @@ func (h *fakeHost) Connect(ctx context.Context, pi peer.AddrInfo) error {
 		e.consecFails[p] = 0
 	}
 	e.lastKind[p] = kind
+	e.lastEndAt[p], e.lastEndGen[p] = e.now(), dialGen
 	e.update(p)
 	if e.eligibleSince[p] >= 0 {
 		e.lastDialEnd[p] = e.now()
@@ -509,13 +610,15 @@ func newEngine(c Case) *engine {
 	e.eligibleSince = make([]time.Duration, n)
 	e.lastDialEnd = make([]time.Duration, n)
 	e.lastDialAt = make([]time.Duration, n)
+	e.lastEndAt = make([]time.Duration, n)
+	e.lastEndGen = make([]int, n)
 	e.lastKind = make([]string, n)
 	e.unstuck = make([]bool, n)
 	e.lateDisc = make([]bool, n)
 	e.sameInstant = make([]int, n)
 	e.consecFails = make([]int, n)
 	for i := range e.eligibleSince {
-		e.eligibleSince[i], e.lastDialEnd[i], e.lastDialAt[i] = -1, -1, -1
+		e.eligibleSince[i], e.lastDialEnd[i], e.lastDialAt[i], e.lastEndAt[i] = -1, -1, -1, -1
 	}
 	return e
 }
@@ -535,8 +638,11 @@ func (e *engine) runScript() {
 		time.Sleep(d)
 		settle()
 	}
-	stop := func() {
+	stop := func(op *Op) {
 		e.mu.Lock()
+		if op != nil && len(op.During) > 0 {
+			e.during = op
+		}
 		for p := range e.ids {
 			if e.inflight[p] > 0 {
 				e.classes["race:stop-during-dial"] = true
@@ -545,6 +651,7 @@ func (e *engine) runScript() {
 		e.mu.Unlock()
 		ps.Stop()
 		e.mu.Lock()
+		e.during = nil
 		e.state = "stopped"
 		for _, hn := range e.held {
 			if !hn.firedStopped {
@@ -555,7 +662,8 @@ func (e *engine) runScript() {
 		e.mu.Unlock()
 	}
 
-	for _, op := range e.c.Ops {
+	for i := range e.c.Ops {
+		op := e.c.Ops[i]
 		if e.unknown != nil {
 			break
 		}
@@ -590,8 +698,14 @@ func (e *engine) runScript() {
 			e.update(p)
 			e.mu.Unlock()
 		case "start":
+			if len(op.During) > 0 {
+				e.mu.Lock()
+				e.during = &e.c.Ops[i]
+				e.mu.Unlock()
+			}
 			err := ps.Start()
 			e.mu.Lock()
+			e.during = nil
 			switch {
 			case e.state == "stopped" && err == nil:
 				e.failUnknown("Start() after Stop() returned nil")
@@ -603,22 +717,14 @@ func (e *engine) runScript() {
 			e.updateAll()
 			e.mu.Unlock()
 		case "stop":
-			stop()
+			stop(&e.c.Ops[i])
 		case "conn":
 			e.mu.Lock()
-			if e.conns[p] < 2 {
-				e.conns[p]++
-				e.fire(false, p, op.Hold)
-				e.update(p)
-			}
+			e.event(false, p, op.Hold)
 			e.mu.Unlock()
 		case "disc":
 			e.mu.Lock()
-			if e.conns[p] > 0 {
-				e.conns[p]--
-				e.fire(true, p, op.Hold)
-				e.update(p)
-			}
+			e.event(true, p, op.Hold)
 			e.mu.Unlock()
 		case "release":
 			e.mu.Lock()
@@ -659,7 +765,7 @@ func (e *engine) runScript() {
 	}
 	// epilogue 2: stop, let every delayed notification arrive, watch for > 10 min
 	if e.state != "stopped" {
-		stop()
+		stop(nil)
 		settle()
 	}
 	for {
@@ -733,7 +839,7 @@ func run(c Case) kit.Result {
 		cls = append(cls, k)
 		switch k {
 		case "race:notification-held-across-stop", "race:notification-held-across-remove", "race:notification-delivered-after-stop",
-			"race:stop-during-dial", "race:remove-during-dial", "connect-then-drop", "connect-nil-but-disconnected", "backoff>=3-failures":
+			"race:stop-during-dial", "race:remove-during-dial", "race:event-inside-start", "race:event-inside-stop", "connect-then-drop", "connect-nil-but-disconnected", "backoff>=3-failures":
 			nt = true
 		}
 	}
@@ -771,11 +877,31 @@ func genOutcome(t *rapid.T) Outcome {
 
 var advances = []int64{1, 1000, 8000, 13000, 13000, 13000, 26000, 60000, 60000, 300000, 600000, 660000, 660000}
 
+// genDuring: with probability 1/oneIn, 1..2 connection events that land inside Start()/Stop().
+func genDuring(t *rapid.T, op *Op, np int, oneIn int) {
+	if rapid.IntRange(1, oneIn).Draw(t, "during") != 1 {
+		return
+	}
+	n := rapid.IntRange(1, 2).Draw(t, "nev")
+	for i := 0; i < n; i++ {
+		op.During = append(op.During, Ev{
+			Disc:  rapid.IntRange(0, 2).Draw(t, "evdisc") > 0,
+			Peer:  rapid.IntRange(0, np-1).Draw(t, "evpeer"),
+			After: rapid.Bool().Draw(t, "evafter"),
+			Hold:  rapid.IntRange(0, 3).Draw(t, "evhold") == 0,
+		})
+	}
+	op.Yield = rapid.IntRange(0, 2).Draw(t, "yield") > 0
+}
+
 func gen(t *rapid.T) Case {
 	np := rapid.IntRange(1, 3).Draw(t, "peers")
 	c := Case{}
 	for i := 0; i < np; i++ {
 		ps := PeerSpec{Tail: rapid.SampledFrom([]string{"fail", "fail", "ok"}).Draw(t, "tail")}
+		if ps.Tail == "fail" {
+			ps.TailDelayMs = rapid.SampledFrom([]int64{0, 0, 0, 0, 1, 60000}).Draw(t, "taildelay")
+		}
 		n := rapid.IntRange(0, 6).Draw(t, "ndials")
 		for j := 0; j < n; j++ {
 			ps.Dials = append(ps.Dials, genOutcome(t))
@@ -788,9 +914,15 @@ func gen(t *rapid.T) Case {
 		for i := 0; i < np; i++ {
 			if i == 0 || rapid.IntRange(0, 5).Draw(t, "preadd") > 0 {
 				c.Ops = append(c.Ops, Op{Kind: "add", Peer: i})
+				// the peer may well be connected already when the service starts
+				for k := rapid.SampledFrom([]int{0, 0, 0, 1, 2}).Draw(t, "preconn"); k > 0; k-- {
+					c.Ops = append(c.Ops, Op{Kind: "conn", Peer: i})
+				}
 			}
 		}
-		c.Ops = append(c.Ops, Op{Kind: "start"})
+		st := Op{Kind: "start"}
+		genDuring(t, &st, np, 2)
+		c.Ops = append(c.Ops, st)
 	}
 	n := rapid.IntRange(5, kit.Scale(26, 28)).Draw(t, "nops")
 	early := []string{"add", "add", "remove", "start", "conn", "conn", "conn", "disc", "disc", "disc", "disc",
@@ -814,6 +946,8 @@ func gen(t *rapid.T) Case {
 			op.Idx = rapid.IntRange(0, 3).Draw(t, "idx")
 		case "soak":
 			op.N = rapid.IntRange(1, 4).Draw(t, "n")
+		case "start", "stop":
+			genDuring(t, &op, np, 3)
 		}
 		c.Ops = append(c.Ops, op)
 		if op.Kind == "untildial" {
@@ -823,7 +957,9 @@ func gen(t *rapid.T) Case {
 				c.Ops = append(c.Ops, Op{Kind: "remove", Peer: peerGen.Draw(t, "peer")})
 			case 1:
 				if i >= n/2 {
-					c.Ops = append(c.Ops, Op{Kind: "stop"})
+					st := Op{Kind: "stop"}
+					genDuring(t, &st, np, 3)
+					c.Ops = append(c.Ops, st)
 				} else {
 					c.Ops = append(c.Ops, Op{Kind: "remove", Peer: peerGen.Draw(t, "peer")})
 				}
@@ -839,11 +975,14 @@ func genBackoff(t *rapid.T) Case {
 	np := rapid.IntRange(1, 3).Draw(t, "peers")
 	c := Case{}
 	for i := 0; i < np; i++ {
-		ps := PeerSpec{Tail: "fail"}
+		// a refused dial fails at once; a black-holed address fails only at the dial timeout,
+		// long after the first back-offs (7.5 s ..) would have elapsed
+		slow := rapid.SampledFrom([]int64{0, 0, 0, 1, 1000, 20000, 60000, 120000}).Draw(t, "dial-duration")
+		ps := PeerSpec{Tail: "fail", TailDelayMs: slow}
 		if rapid.Bool().Draw(t, "recovers") {
 			k := rapid.IntRange(0, 40).Draw(t, "fails-before-ok")
 			for j := 0; j < k; j++ {
-				ps.Dials = append(ps.Dials, Outcome{Kind: "fail"})
+				ps.Dials = append(ps.Dials, Outcome{Kind: "fail", DelayMs: slow})
 			}
 			ps.Dials = append(ps.Dials, Outcome{
 				Kind:   rapid.SampledFrom([]string{"ok", "ok", "okdrop"}).Draw(t, "recovery"),
@@ -916,6 +1055,81 @@ func flapGrid(yield func(Case) bool) {
 	}
 }
 
+// startStopGrid enumerates connection events that land inside Start() / Stop() for one
+// peer that was added before Start and has 0..2 connections at that moment: 1..2 events
+// (open / close), each just before or just after the notifee (un)registration takes
+// effect, with and without letting the goroutines the call has spawned so far run first,
+// notifications of events that anybody listens to delivered at once or held. Afterwards
+// (Start) the service runs for 4 soak steps - a peer left disconnected must be dialled
+// within 10 min each time - resp. (Stop) is watched for > 20 min: no dial at all.
+func startStopGrid(yield func(Case) bool) {
+	type ev struct{ disc, after bool }
+	evsets := func(conns int) [][]ev {
+		var out [][]ev
+		for _, a := range []bool{false, true} {
+			for _, d := range []bool{false, true} {
+				if d && conns == 0 {
+					continue
+				}
+				out = append(out, []ev{{d, a}})
+				for _, d2 := range []bool{false, true} {
+					for _, a2 := range []bool{false, true} {
+						if a && !a2 {
+							continue // "before" events run first anyway
+						}
+						n := conns + 1
+						if d {
+							n = conns - 1
+						}
+						if d2 && n == 0 {
+							continue
+						}
+						out = append(out, []ev{{d, a}, {d2, a2}})
+					}
+				}
+			}
+		}
+		return out
+	}
+	for _, tail := range []string{"fail", "ok"} {
+		for conns := 0; conns <= 2; conns++ {
+			for _, set := range evsets(conns) {
+				for _, yld := range []bool{false, true} {
+					for _, hold := range []bool{false, true} {
+						var during []Ev
+						for _, x := range set {
+							during = append(during, Ev{Disc: x.disc, After: x.after, Hold: hold})
+						}
+						pre := []Op{{Kind: "add"}}
+						for k := 0; k < conns; k++ {
+							pre = append(pre, Op{Kind: "conn"})
+						}
+						peers := []PeerSpec{{Tail: tail}}
+						// events inside Start
+						ops := append(append([]Op{}, pre...), Op{Kind: "start", During: during, Yield: yld},
+							Op{Kind: "soak", N: 2}, Op{Kind: "release"}, Op{Kind: "release"}, Op{Kind: "soak", N: 2})
+						if !yield(Case{Peers: peers, Ops: ops}) {
+							return
+						}
+						// events inside Stop, the service idle or (connections: 0) with a dial in flight
+						for _, mid := range [][]Op{{{Kind: "advance", Ms: 1000}}, {{Kind: "untildial"}}} {
+							if mid[0].Kind == "untildial" && conns > 0 {
+								continue
+							}
+							ops = append(append([]Op{{Kind: "start"}}, pre...), mid...)
+							ops = append(ops, Op{Kind: "stop", During: during, Yield: yld})
+							sp := []PeerSpec{{Tail: tail, Dials: []Outcome{{Kind: tail, DelayMs: 30000}}}}
+							if !yield(Case{Peers: sp, Ops: ops}) {
+								return
+							}
+						}
+					}
+				}
+			}
+		}
+	}
+}
+
 func sample(c Case) any {
 	if len(c.Ops) <= 40 {
 		return c
@@ -925,14 +1139,14 @@ func sample(c Case) any {
 
 var spec = kit.Spec[Case]{
 	Prop: "C46", Name: "main",
-	Rule:  "peering service in a synctest bubble on a fake host: 1..3 peers with scripted dial outcomes (fail / ok / ok-then-drop-before-Connect-returns, optional dial duration, optional time 1 ms..30 s that Connect keeps waiting after the connection events before it returns nil, so that the service handles the drop first), script of <=~30 AddPeer/RemovePeer/Start/Stop/external connect/disconnect/advance(<=11 min)/soak/advance-until-a-dial-is-in-flight/release, Connected/Disconnected notifications optionally held and delivered later (also after Stop); safety: no Connect starts after Stop/RemovePeer returned; progress: every disconnected, fully notified peer of a running service is dialled within 10 min and never with delay 0; non-trivial = a notification is held across or delivered after Stop/RemovePeer, Stop/RemovePeer during a dial, a connect-then-drop, Connect returning nil for a peer that is disconnected again, or >=3 consecutive failed dials",
+	Rule:  "peering service in a synctest bubble on a fake host: 1..3 peers with scripted dial outcomes (fail / ok / ok-then-drop-before-Connect-returns, optional dial duration, optional time 1 ms..30 s that Connect keeps waiting after the connection events before it returns nil, so that the service handles the drop first; all further failing dials optionally taking 60 s; peers optionally connected before Start), script of <=~30 AddPeer/RemovePeer/Start/Stop/external connect/disconnect/advance(<=11 min)/soak/advance-until-a-dial-is-in-flight/release, Connected/Disconnected notifications optionally held and delivered later (also after Stop), 1..2 connection events optionally landing inside Start()/Stop() just before/after the notifee (un)registration; safety: no Connect starts after Stop/RemovePeer returned; progress: every disconnected, fully notified peer of a running service is dialled within 10 min and never with delay 0 (no attempt starts at the instant the handler's previous attempt returned); non-trivial = a notification is held across or delivered after Stop/RemovePeer, Stop/RemovePeer during a dial, a connection event inside Start/Stop, a connect-then-drop, Connect returning nil for a peer that is disconnected again, or >=3 consecutive failed dials",
 	Quick: 1500, Thorough: 12000,
 	Gen: gen, Run: run, Journal: true, Sample: sample,
 }
 
 var specBackoff = kit.Spec[Case]{
 	Prop: "C46", Name: "backoff",
-	Rule:  "1..3 peers whose dials all fail (optionally one success - stable, or dropped again before Connect returns - after 0..40 failures, then an external drop), service soaked for up to 108 steps of 10 min + 1 s: every step must contain a dial of every disconnected peer, no inter-dial delay may exceed 10 min or be 0, nothing may panic; non-trivial = >=3 consecutive failures (classes show >=20 and >=100)",
+	Rule:  "1..3 peers whose dials all fail, each dial taking 0 / 1 ms / 1 s / 20 s / 60 s / 120 s of virtual time per peer (refused vs. black-holed address) (optionally one success - stable, or dropped again before Connect returns - after 0..40 failures, then an external drop), service soaked for up to 108 steps of 10 min + 1 s: every step must contain a dial of every disconnected peer, no inter-dial delay may exceed 10 min or be 0, nothing may panic; non-trivial = >=3 consecutive failures (classes show >=20 and >=100)",
 	Quick: 150, Thorough: 1200,
 	Gen: genBackoff, Run: run, Journal: true, Sample: sample,
 }
@@ -941,6 +1155,21 @@ var specFlap = kit.Spec[Case]{
 	Prop: "C46", Name: "flap",
 	Rule: "finite grid (192 cases) of one flapping reconnect on a running service with 1 peer: after 0/1/3 failed dials a dial succeeds and the connection is gone again when host.Connect returns nil - either dropped during the dial (Connect returns 0 / 1 ms / 3 s after the drop, dial duration 0 / 3 s) or disconnected externally while Connect still waits (3 s / 30 s) - x Connected held or not x Disconnected held or not (held ones are released 10 min later) x later dials fail / succeed; then 3 soak steps of 10 min + 1 s: the peer must be dialled again within 10 min of Connect returning (same oracles as main); non-trivial = connect-then-drop, Connect returning nil for a peer that is disconnected at that moment, or >=3 consecutive failures (in 3 cases a concurrent second dial reconnects the peer before the first Connect returns)",
 	Run:  run, Journal: true, Sample: sample,
+}
+
+var specStartStop = kit.Spec[Case]{
+	Prop: "C46", Name: "startstop",
+	Rule: "finite grid of connection events landing inside Start() / Stop() at the point where the service registers / unregisters its notifee: 1 peer added before Start with 0..2 connections x 1..2 events (open / close; each just before or just after the (un)registration takes effect) x the goroutines spawned by the call so far have run or not x notifications delivered at once or held x later dials fail / succeed; Start: then 4 soak steps of 10 min + 1 s, the peer if left disconnected must be dialled within 10 min each time; Stop (service idle, or a 30 s dial in flight): no dial after Stop returned, > 20 min watched (same oracles as main); non-trivial = an event landed inside Start/Stop",
+	Run:  run, Journal: true, Sample: sample,
+}
+
+func TestPropStartStop(t *testing.T) {
+	if kit.Shard() != "0" {
+		t.Skip("exhaustive grid runs in shard 0 only")
+	}
+	t.Run("replay", func(t *testing.T) { curT = t; kit.Replay(t, specStartStop) })
+	t.Run("findings", func(t *testing.T) { curT = t; kit.RunFindings(t, specStartStop) })
+	t.Run("grid", func(t *testing.T) { curT = t; kit.Exhaustive(t, specStartStop, startStopGrid) })
 }
 
 func TestPropFlap(t *testing.T) {
